@@ -62,7 +62,7 @@ def run(prop: str, tier: str, seed: int) -> int:
         sys_props.run_into(rep, "C02", tier, seed)
     # ---- channel V: random deeper schemas, judged by TLC against the same operators
     g = gen.Gen(seed, max_depth=4 if tier == "quick" else 5)
-    ngroups = 400 if tier == "quick" else 6000
+    ngroups = 1500 if tier == "quick" else 15000
     groups = []
     for i in range(ngroups):
         T = g.type()
